@@ -66,9 +66,18 @@ def run_harness(exe, ops, timeout=600, cwd=None, env_extra=None):
             shutil.rmtree(cwd, ignore_errors=True)
 
 
+INF_LINE = None
+
+
 def run_model(lines, timeout=900):
-    r = subprocess.run([DRV], input="\n".join(lines) + "\n", capture_output=True, text=True, timeout=timeout)
-    t = parse_blocks(r.stdout, lines)
+    """when INF_LINE is set (the values of the two infinity encodings, obtained from the harness) it
+    is sent first so that `inf`/`-inf` tokens mean the same on both sides"""
+    pre = [INF_LINE] if INF_LINE and not (lines and lines[0].startswith("inf ")) else []
+    r = subprocess.run([DRV], input="\n".join(pre + list(lines)) + "\n", capture_output=True, text=True, timeout=timeout)
+    out = r.stdout
+    if pre:
+        out = out.split("\n.\n", 1)[1] if "\n.\n" in out else ""
+    t = parse_blocks(out, lines)
     t.stderr = r.stderr
     t.returncode = r.returncode
     if len(t) < len(lines) or r.returncode != 0:
